@@ -166,7 +166,7 @@ func genCase(rng *rand.Rand) *caseDesc {
 			}
 		default:
 			o.K = "adv"
-			o.Dt = []uint64{0, 1, 7, 50, 250, 499, 500, 501, 1000, 1500, 12000}[rng.Intn(11)]
+			o.Dt = []uint64{0, 1, 7, 50, 250, 499, 500, 501, 1000, 1500, 12000, 61000, 100000}[rng.Intn(13)]
 		}
 		c.Ops = append(c.Ops, o)
 	}
@@ -542,4 +542,40 @@ func main() {
 			rec = map[int]*recInfo{}
 		}
 	}
+	// a process that has seen very many resource names (more than the 10000 the library warns about): the outcomes of
+	// a request on one more, new resource are still counted, on that resource and on the inbound total
+	if i := n; !run.Skip(i) {
+		d := map[string]interface{}{"resources_seen_before": 10050}
+		run.Begin(i, d)
+		run.Guard("C01/panic-in-monitor", d, func() { manyResources(i) })
+	}
+}
+
+func manyResources(idx int) {
+	clk.AddMs(20000)
+	for k := 0; k < 10050; k++ {
+		if e, b := sentinel.Entry(fmt.Sprintf("c01-many-%d-%d", idx, k)); b == nil {
+			e.Exit()
+		}
+	}
+	in := stat.InboundNode()
+	p0, c0 := in.GetSum(base.MetricEventPass), in.GetSum(base.MetricEventComplete)
+	name := fmt.Sprintf("c01-many-%d-last", idx)
+	e, b := sentinel.Entry(name, sentinel.WithTrafficType(base.Inbound), sentinel.WithBatchCount(2))
+	if b != nil || e == nil {
+		run.Violation("C01/many-resources:rejected", fmt.Sprintf("a request on a new resource after 10050 others was rejected: %v", b), map[string]interface{}{"case": idx})
+		return
+	}
+	g := in.CurrentConcurrency()
+	e.Exit()
+	p1, c1, g1 := in.GetSum(base.MetricEventPass), in.GetSum(base.MetricEventComplete), in.CurrentConcurrency()
+	var rp, rc int64 = -1, -1
+	if rn := stat.GetResourceNode(name); rn != nil {
+		rp, rc = rn.GetSum(base.MetricEventPass), rn.GetSum(base.MetricEventComplete)
+	}
+	if p1-p0 != 2 || c1-c0 != 2 || g != 1 || g1 != 0 || rp != 2 || rc != 2 {
+		run.Violation("C01/many-resources:outcome-not-counted", fmt.Sprintf("inbound request (batch 2) on a new resource after 10050 other resources: inbound pass +%d complete +%d (want +2, +2), inbound in-flight %d while live and %d after exit (want 1, 0), on the resource pass %d complete %d (want 2, 2; -1 = no node)", p1-p0, c1-c0, g, g1, rp, rc), map[string]interface{}{"case": idx})
+	}
+	stat.ResetResourceNodeMap()
+	run.Count("many_resources_cases", 1)
 }
